@@ -7,7 +7,7 @@ from props import tcommon
 PROP = "C14"
 
 
-def run_histories(prop, tier, seed, ev, ex, obs):
+def run_histories(prop, tier, seed, ev, ex, obs, accept=None):
     """like mprop.run_m but every distinct role of counterexample is handled on its own (a listed finding
     never masks another violation)"""
     import time
@@ -34,8 +34,12 @@ def run_histories(prop, tier, seed, ev, ex, obs):
             ev.add(ob.name, "mirsym+z3", "inconclusive", ob.time_s, **info)
             rc = max(rc, 2)
             continue
+        handled = 0
         for one in [ob] + list(getattr(ob, "others", [])):
             role = one.role
+            if accept is not None and not accept(role):
+                continue   # another property's concern (reported by that property's check)
+            handled += 1
             log(f"[{prop}] {one.name}: solver found a history [{role}]: {one.detail}\n    results={one.cex.get('results')} fault={one.cex.get('fault')} steps: {' '.join(one.cex.get('steps', []))[:500]}")
             path = vlib.write_replay(prop, {"property": prop, "values": one.cex, "replay_test": "replay_ghost_record", "role": role})
             # 1. the history through the PUBLIC API with the witnessed call failing (EIO injected at the libc boundary)
@@ -72,6 +76,9 @@ def run_histories(prop, tier, seed, ev, ex, obs):
                 log(f"[{prop}] {oname}: not confirmed on the real code -> INCONCLUSIVE\n    {str(out)[-400:]}")
                 ev.add(oname, "mirsym+z3", "inconclusive", one.time_s, note="history not reproduced natively", replay=path, **info)
                 rc = max(rc, 2)
+        if not handled:
+            log(f"[{prop}] {ob.name}: discharged for this property (histories found only for roles reported by another property's check)")
+            ev.add(ob.name, "mirsym+z3", "discharged", ob.time_s, nonvacuous=True, note="only roles reported elsewhere", **info)
     return 1 if viol else rc
 
 
